@@ -467,6 +467,8 @@ pub struct DpOpts {
     pub take_every_poll: bool,
     /// `DpMaster::add()` for the last peripherals while the bus runs (every fifth world).
     pub late_add: bool,
+    /// `reset_address()` to another address at which a twin of the slave answers.
+    pub alt_addr: bool,
 }
 
 fn pick_len(r: &mut Rng, big: bool, max: usize) -> usize {
@@ -630,6 +632,7 @@ pub fn dp_world(r: &mut Rng, tier: Tier, o: &DpOpts) -> (WorldCfg, OracleCfg, Ve
             out_len,
             diag_buf: *r.pick(&[0usize, 0, 6, 16, 64, 244]),
             add_at_us: 0,
+            alt_addr: None,
         };
         // the slave behind it
         let mut sc = SlaveCfg {
@@ -765,10 +768,34 @@ pub fn dp_world(r: &mut Rng, tier: Tier, o: &DpOpts) -> (WorldCfg, OracleCfg, Ve
             faults.push(Fault { trig: Trigger::At(t2 - 1), kind: FaultKind::SlavePower { slave: sl, on: false }, delay_us: 0 });
         }
     }
+    // Every fourth world (C03): one peripheral has a twin at another address and the user process
+    // moves it there and back with `reset_address()`.  (A generator of its own.)
+    let mut alt_reset = false;
+    if o.alt_addr && !peripherals.is_empty() {
+        let mut ra = Rng::new(t1 ^ (t2 << 17) ^ u64::from(master) ^ 0xA17A_DD2E);
+        if ra.chance(1, 4) {
+            let k = ra.below(peripherals.len() as u64) as usize;
+            let mut a = ra.below(u64::from(hsa).min(126)) as u8;
+            let mut guard = 0;
+            while (used.contains(&a) || a == master) && guard < 300 {
+                a = ra.below(126) as u8;
+                guard += 1;
+            }
+            if guard < 300 {
+                if let Some(twin) = slaves.iter().find(|s| s.addr == peripherals[k].addr).cloned() {
+                    let mut twin = twin;
+                    twin.addr = a;
+                    slaves.push(twin);
+                    peripherals[k].alt_addr = Some(a);
+                    alt_reset = true;
+                }
+            }
+        }
+    }
     let user = UserCfg {
         write_pm: if o.user_writes { *r.pick(&[0u32, 20, 100, 400]) } else { 0 },
         diag_pm: if o.user_diag { *r.pick(&[0u32, 0, 5, 30, 150]) } else { 0 },
-        reset_pm: if o.user_reset && r.chance(1, 4) { *r.pick(&[1u32, 5]) } else { 0 },
+        reset_pm: if o.user_reset && r.chance(1, 4) { *r.pick(&[1u32, 5]) } else if alt_reset { 2 } else { 0 },
         reset_inflight_pm: 0,
         take_every: if o.take_every_poll { 1 } else { *r.pick(&[1u32, 1, 2, 7]) },
         until_us: if o.quiet_phase { t2 } else { 0 },
@@ -1073,6 +1100,7 @@ pub fn adv_world(r: &mut Rng, tier: Tier, o: &AdvOpts) -> (WorldCfg, OracleCfg, 
                             out_len,
                             diag_buf: *r.pick(&[0usize, 6, 16, 64, 244]),
                             add_at_us: 0,
+                            alt_addr: None,
                         });
                         if r.chance(4, 5) {
                             slaves.push(SlaveCfg {
@@ -1758,6 +1786,7 @@ pub fn generate(check: &str, tier: Tier, base_seed: u64, k: u64) -> Scenario {
                         quiet_phase: false,
                         take_every_poll: false,
                         late_add: true,
+                        alt_addr: false,
                     };
                     let (mut w, o, mut f) = dp_world(&mut r, tier, &o);
                     w.log_all = true;
@@ -2082,6 +2111,7 @@ pub fn generate(check: &str, tier: Tier, base_seed: u64, k: u64) -> Scenario {
                 quiet_phase: check == "C07",
                 take_every_poll: true,
                 late_add: true,
+                alt_addr: check == "C03",
             };
             let (w, oc, f) = dp_world(&mut r, tier, &o);
             // Every fourth run: the random storm is replaced by a *systematic* placement of one or
